@@ -10,7 +10,7 @@
    Where a statement needs the digest to be collision-free this is an explicit
    premise of that clause. *)
 From Coq Require Import Sorting.Permutation.
-From Oras Require Import Base.Prelude Base.Regex Base.StrCheck Generated.GC19 Model.Pack Proofs.Pack Proofs.PackTime Proofs.PackJson Proofs.PackTie Model.PackEnc Model.PackSha Proofs.PackEnc.
+From Oras Require Import Base.Prelude Base.Regex Base.StrCheck Generated.GC19 Model.Pack Proofs.Pack Proofs.PackTime Proofs.PackJson Proofs.PackTie Model.PackEnc Model.PackSha Proofs.PackEnc Proofs.PackNum.
 
 (* The media-type check accepts exactly RFC 6838 section 4.2:
    restricted-name "/" restricted-name, each 1..127 characters. *)
@@ -420,6 +420,29 @@ Theorem C19_closed :
 Proof. exact ok_closed. Qed.
 Print Assumptions C19_closed.
 
+(* Schedules: on a healthy target (no fault, not a file store) the result of every call of a history is a
+   function of that call's input alone (pure_result: the exact rejection error, ErrInvalidDateTimeFormat, or
+   the descriptor and manifest) -- not of the target's content, of earlier calls or of the order; so the
+   same calls made in any other order on any other healthy target return the same results, call for call. *)
+Theorem C19_history_results_are_functions_of_the_calls :
+  forall (marshal : manifest -> str) (H : str -> str), H empty_json = empty_json_digest ->
+  forall tc cs s s' rs,
+    t_key tc <> KFile ->
+    run_calls marshal H tc None s cs = (s', rs) -> rs = map (pure_result marshal H) cs.
+Proof. exact history_results_pure. Qed.
+Print Assumptions C19_history_results_are_functions_of_the_calls.
+
+Theorem C19_history_order_irrelevant :
+  forall (marshal : manifest -> str) (H : str -> str), H empty_json = empty_json_digest ->
+  forall tc1 tc2 cs cs' s1 s2 s1' s2' rs rs',
+    t_key tc1 <> KFile -> t_key tc2 <> KFile ->
+    Permutation cs cs' ->
+    run_calls marshal H tc1 None s1 cs = (s1', rs) ->
+    run_calls marshal H tc2 None s2 cs' = (s2', rs') ->
+    Permutation rs rs' /\ (forall c r, In (c, r) (combine cs rs) -> In (c, r) (combine cs' rs')).
+Proof. exact history_order_irrelevant. Qed.
+Print Assumptions C19_history_order_irrelevant.
+
 (* "so the result can be copied": with the caller's own descriptors present in the target, the new
    manifest and every successor of it answer Exists afterwards (source closed one level down from the
    new root; deeper levels are the caller's graph).  CopyGraph itself stays the harness oracle. *)
@@ -585,6 +608,52 @@ Theorem C19_json_annotations_roundtrip :
   forall l rest, read_obj (json_ann l ++ rest) = Some (san_ann (kv_sort l), rest).
 Proof. exact json_ann_roundtrip. Qed.
 Print Assumptions C19_json_annotations_roundtrip.
+
+(* "those bytes parse as a manifest of the returned media type", for the modelled json.Marshal and
+   without the premise json_roundtrip: reading the head of the document (doc_media_type / doc_artifact_type:
+   the mediaType field, after "schemaVersion":2 when present, and the artifactType field next to it) ... *)
+Theorem C19_document_declares_media_type :
+  forall m, doc_media_type (json_manifest m) = Some (kind_mt (m_kind m)).
+Proof. exact doc_media_type_json. Qed.
+Print Assumptions C19_document_declares_media_type.
+
+Theorem C19_document_declares_artifact_type :
+  forall m, doc_artifact_type (json_manifest m) =
+            match m_kind m, m_at m with KImage, [] => None | _, a => Some (utf8_san a) end.
+Proof. exact doc_artifact_type_json. Qed.
+Print Assumptions C19_document_declares_artifact_type.
+
+(* Numbers: the decimal json.Marshal writes for a natural number reads back as that number ... *)
+Theorem C19_json_number_roundtrip :
+  forall n rest,
+    n < pow10 40 ->
+    match rest with c :: _ => is_digit c = false | [] => True end ->
+    read_digits (json_nat n ++ rest) 0 = (n, rest).
+Proof. exact read_json_nat. Qed.
+Print Assumptions C19_json_number_roundtrip.
+
+(* ... and an image manifest document declares the requested config descriptor: its media type and digest
+   (coerced to UTF-8) and its size, read from the head of "config":{...} *)
+Theorem C19_document_declares_config :
+  forall m c n,
+    m_kind m = KImage -> m_config m = Some c -> d_sz c = Z.of_N n -> n < pow10 40 ->
+    doc_config_head (json_manifest m) = Some (utf8_san (d_mt c), utf8_san (d_dg c), n).
+Proof. exact doc_config_head_json. Qed.
+Print Assumptions C19_document_declares_config.
+
+(* ... so the document stored under the returned descriptor declares that descriptor's media type and
+   the requested artifact type (for a collision-free digest). *)
+Theorem C19_stored_document_declares :
+  forall (H : str -> str), H empty_json = empty_json_digest -> (forall x y, H x = H y -> x = y) ->
+  forall f tc fa s at_ o now s' d m,
+    wf_store H (s_store s) ->
+    pack json_manifest H f tc fa s at_ o now = (s', Ok d m) ->
+    exists e, In e (s_store s') /\ same_key (t_key tc) d e = true /\
+              doc_media_type (e_bytes e) = Some (d_mt d) /\
+              doc_artifact_type (e_bytes e) =
+                match m_kind m, m_at m with KImage, [] => None | _, a => Some (utf8_san a) end.
+Proof. exact stored_document_declares. Qed.
+Print Assumptions C19_stored_document_declares.
 
 (* ... so Pack with the real marshalling is independent of the order of the manifest annotations. *)
 Theorem C19_annotation_order_independent_json :
